@@ -42,6 +42,13 @@ func (m *OrderedMap[K, V]) binarySearch(key K) (int, bool) {
 			high = mid
 		}
 	}
+	// keys can be neither equal nor ordered by less (e.g. distinct types that are printed alike),
+	// binary search cannot navigate a run of such keys, so a miss is confirmed by a linear scan
+	for i := 0; i < len(m.data); i += 2 {
+		if m.eq(m.data[i].(K), key) {
+			return i, true
+		}
+	}
 	return low, false
 }
 
